@@ -50,6 +50,8 @@ class ARTimeSeriesRegressor(BaseTimeSeries, TimeSeriesRegressorMixin):
             self.estimator = DummyTimeSeriesRegressor(
                 past=past, delay1=delay1, delay2=delay2, use_all_past=use_all_past
             )
+        else:
+            self.estimator = estimator
         assert hasattr(
             self.estimator, "fit"
         ), f"estimator is not an estimator but {type(estimator)}"
